@@ -14,19 +14,20 @@ LEVEL_TEXT = (
     "Static rules: (R1) may-mutate effect analysis with a freshness lattice over every function outside the "
     "grammar's construction set: no item store, del, in-place augmented assignment or mutating container method "
     "(append/remove/pop/update/...) is applied to a value owned by a Grammar - the Grammar-typed expression "
-    "itself, its attribute containers, their elements/views, local aliases and conditional aliases ('copy only if"
-    " ...') - directly or through a resolved callee that mutates the corresponding parameter; copies (list(), "
-    "comprehension, slice, copy, deepcopy) end ownership; (R2) registration / preprocessing / weight rewriting "
-    "are called only from the construction set and production weights are written - by item store, setdefault, "
-    "update, __setitem__, pop or del - only by the weight decorator and update_weights (reading a weight must not"
-    " declare one); (R3) the grammar's observable tables are not auto-vivifying (a defaultdict would turn every "
-    "unguarded read into an insertion) or every read outside construction is membership-guarded. (R4) the "
-    "refinement objects attached to annotated types are part of the grammar: no method of a MetaHandlerGenerator "
-    "subclass other than its constructor modifies the object's own state - attributes, their containers, elements"
-    " and views such as the rows of a probability matrix - directly or by passing them to a callee that writes to"
-    " the corresponding parameter (e.g. a random primitive that accumulates its weights in place). Decides this "
-    "for all grammars and all operation sequences, including failing and backtracking ones; does not decide "
-    "mutation through dynamic attribute names or user code."
+    "itself, its attribute containers, their elements/views, local aliases, conditional aliases ('copy only if "
+    "...') and fields every store of which is such an alias (self._table = grammar.table) - directly or through a"
+    " resolved callee that mutates the corresponding parameter; copies (list(), comprehension, slice, copy, "
+    "deepcopy) end ownership; (R2) registration / preprocessing / weight rewriting are called only from the "
+    "construction set and production weights are written - by item store, setdefault, update, __setitem__, pop or"
+    " del - only by the weight decorator and update_weights (reading a weight must not declare one); (R3) the "
+    "grammar's observable tables are not auto-vivifying (a defaultdict would turn every unguarded read into an "
+    "insertion) or every read outside construction is membership-guarded. (R4) the refinement objects attached to"
+    " annotated types are part of the grammar: no method of a MetaHandlerGenerator subclass other than its "
+    "constructor modifies the object's own state - attributes, their containers, elements and views such as the "
+    "rows of a probability matrix - directly or by passing them to a callee that writes to the corresponding "
+    "parameter (e.g. a random primitive that accumulates its weights in place). Decides this for all grammars and"
+    " all operation sequences, including failing and backtracking ones; does not decide mutation through dynamic "
+    "attribute names or user code."
 )
 
 CONSTRUCTION = {
